@@ -262,8 +262,14 @@ Definition sort_frags (frs : list (list bdata)) : list (list bdata) :=
   fold_left (fun acc f => insert_frag f acc) frs [].
 
 (* sortFragmentsOfChain: a[0] of an empty fragment panics as soon as it is compared *)
-Definition sort_fragments (frs : list (list bdata)) : outcome (list (list bdata)) :=
-  if (2 <=? length frs)%nat && has_empty frs then Panic else Ok (sort_frags frs).
+(* [srt] is the reordering slices.SortFunc performs; sort_frags is what it does on at most 12
+   fragments, the _with versions below leave it open (any function) so that the safety theorem
+   can be stated for whatever order the library sort produces *)
+Definition sort_fragments_with (srt : list (list bdata) -> list (list bdata))
+  (frs : list (list bdata)) : outcome (list (list bdata)) :=
+  if (2 <=? length frs)%nat && has_empty frs then Panic else Ok (srt frs).
+Definition sort_fragments : list (list bdata) -> outcome (list (list bdata)) :=
+  sort_fragments_with sort_frags.
 
 (* mergeFragmentsOfChain *)
 Fixpoint merge_loop (merged : list (list bdata)) (cur : list bdata) (rest : list (list bdata))
@@ -403,12 +409,13 @@ Fixpoint second_round (e : env) (dis : list (list bdata)) (u : unready) (queue :
     end
   end.
 
-Definition process (chk frg lg : bool) (bad : list N) (st : pstate) (rs : list result) : outcome presult :=
+Definition process_with (srt : list (list bdata) -> list (list bdata))
+  (chk frg lg : bool) (bad : list N) (st : pstate) (rs : list result) : outcome presult :=
   match validate_results chk frg lg bad rs (mkval [] [] []) with
   | Ok v =>
     match collect_ready frg (fin (p_env st)) (p_un st) (v_ok v) [] with
     | Ok (u1, ready) =>
-      match sort_fragments ready with
+      match sort_fragments_with srt ready with
       | Ok sorted =>
         match merge_fragments sorted with
         | Ok ordered =>
@@ -449,6 +456,9 @@ Definition process (chk frg lg : bool) (bad : list N) (st : pstate) (rs : list r
   | Err c => Err c | Panic => Panic | OutOfFuel => OutOfFuel
   end.
 
+Definition process : bool -> bool -> bool -> list N -> pstate -> list result -> outcome presult :=
+  process_with sort_frags.
+
 (* ---------------------------------------------------------------- histories *)
 
 Inductive step :=
@@ -457,29 +467,34 @@ Inductive step :=
 | SFinal (n : N)
 | SProcess (rs : list result).
 
-Definition do_step (chk frg lg : bool) (bad : list N) (st : pstate) (s : step) : outcome (pstate * option presult) :=
+Definition do_step_with (srt : list (list bdata) -> list (list bdata))
+  (chk frg lg : bool) (bad : list N) (st : pstate) (s : step) : outcome (pstate * option presult) :=
   match s with
   | SAnnounce h => Ok (mkps (p_env st) (new_incomplete (p_un st) h) (p_queue st), None)
   | SKnown h => Ok (mkps (mkenv (h :: known (p_env st)) (fin (p_env st))) (p_un st) (p_queue st), None)
   | SFinal n => Ok (mkps (mkenv (known (p_env st)) n) (p_un st) (p_queue st), None)
   | SProcess rs =>
-    match process chk frg lg bad st rs with
+    match process_with srt chk frg lg bad st rs with
     | Ok r => Ok (pr_state r, Some r)
     | Err c => Err c | Panic => Panic | OutOfFuel => OutOfFuel
     end
   end.
+Definition do_step := do_step_with sort_frags.
 
 (* runs a history; the results of the steps so far and whether it ended in a panic *)
-Fixpoint run (chk frg lg : bool) (bad : list N) (st : pstate) (h : list step)
+Fixpoint run_with (srt : list (list bdata) -> list (list bdata))
+  (chk frg lg : bool) (bad : list N) (st : pstate) (h : list step)
   : list (option presult) * bool * pstate :=
   match h with
   | [] => ([], false, st)
   | s :: r =>
-    match do_step chk frg lg bad st s with
-    | Ok (st', o) => match run chk frg lg bad st' r with (os, p, stf) => (o :: os, p, stf) end
+    match do_step_with srt chk frg lg bad st s with
+    | Ok (st', o) => match run_with srt chk frg lg bad st' r with (os, p, stf) => (o :: os, p, stf) end
     | _ => ([], true, st)
     end
   end.
+Definition run : bool -> bool -> bool -> list N -> pstate -> list step
+  -> list (option presult) * bool * pstate := run_with sort_frags.
 
 Definition init_state (root : N) : pstate := mkps (mkenv [root] 0) (mkun [] []) [].
 
